@@ -461,11 +461,81 @@ def r10e(ctx, rep):
                                      "(e.g. 1e-12), which the scanner reads as a symbol, not a number", [t["loc"]])
 
 
+def r10h(ctx, rep, rule="R10h"):
+    facts = ctx["facts"]
+    rep.rule(rule, "a character written as itself is read as itself: the printer writes every printable character as #\\<char>, "
+             "including #\\x; in parse_char the hexadecimal decoding (from_str_radix(.., 16)) is therefore reachable only after "
+             "the single-character spelling was ruled out — through the `!= 1` edge of a test of the literal's character "
+             "count, or through a test that at least one digit follows the x. An `all digits are hex` test alone is vacuously "
+             "true for the empty string, and #\\x would be decoded as an empty hex escape.")
+    f = need(rep, rule, facts, "marwood::parse::parse_char")
+    if f is None:
+        return
+    sites = [(bb, t) for bb, t in f.calls() if (callee(t) or "").endswith("from_str_radix")]
+    if not sites:
+        rep.anchor_lost(rule, "from_str_radix in parse_char")
+        return
+    cut = set()
+    for bb, blk in enumerate(f.blocks):
+        tt = blk["term"]
+        if tt["k"] != "switch" or blk.get("cleanup"):
+            continue
+        o = f.origin(tt["op"])
+        vals = dict((v, tg) for v, tg in tt["targets"])
+        if o[0] == "rv" and o[1]["rv"]["k"] == "bin":
+            rv = o[1]["rv"]
+            a, b = f.origin(rv["a"]), f.origin(rv["b"])
+            cnt = a if a[0] == "call" and (callee(a[1]) or "").endswith(("::count", "::len")) else None
+            c = op_const(rv["b"]) or (b[1] if b[0] == "const" else None)
+            if cnt is not None and c is not None and "int" in c:
+                n = int(c["int"])
+                false_t = vals.get(0, tt["otherwise"] if 0 not in vals else None)
+                true_t = tt["otherwise"] if 0 in vals else vals.get(1)
+                if rv["op"] == "Eq" and n == 1 and false_t is not None:
+                    cut.add((bb, false_t))           # count != 1
+                if rv["op"] == "Ne" and n == 1 and true_t is not None:
+                    cut.add((bb, true_t))
+                if rv["op"] in ("Gt", "Ge") and ((rv["op"] == "Gt" and n >= 1) or (rv["op"] == "Ge" and n >= 2)) and true_t is not None:
+                    cut.add((bb, true_t))            # more than one character / at least one digit
+        if o[0] == "call" and (callee(o[1]) or "").endswith("::is_empty"):
+            false_t = vals.get(0, tt["otherwise"] if 0 not in vals else None)
+            if false_t is not None:
+                cut.add((bb, false_t))
+    seen = {0}
+    st_ = [0]
+    while st_:
+        b0 = st_.pop()
+        for y in f.succ[b0]:
+            if (b0, y) in cut or y in seen:
+                continue
+            seen.add(y)
+            st_.append(y)
+    # the emptiness / length test may sit in a closure that filters the digit string (Option::filter, bool::then ...)
+    closure_test = False
+    for cl in facts.closures_of(f):
+        for bb, t in cl.calls():
+            if (callee(t) or "").endswith("::is_empty"):
+                closure_test = True
+        for bb, j, st in cl.stmts():
+            rv = st["rv"]
+            if rv["k"] == "bin" and rv["op"] in ("Gt", "Ge", "Ne", "Eq", "Lt", "Le"):
+                a = cl.origin(rv["a"])
+                if a[0] == "call" and (callee(a[1]) or "").endswith(("::count", "::len")):
+                    closure_test = True
+    for i, (bb, t) in enumerate(sites):
+        ok = bb not in seen or closure_test
+        (rep.ok if ok else rep.fail)(rule, "%s|parse_char|hex#%d" % (rule, i + 1),
+                                     "the hex decoding is reached only after the single-character spelling was ruled out" if ok else
+                                     "parse_char can reach the hexadecimal decoding for a literal of one character: #\\x, which the printer "
+                                     "emits for the character x, is decoded as an empty hex escape and rejected", [t["loc"]])
+
+
 def run(ctx, rep):
     r10a(ctx, rep)
     r10e(ctx, rep)
     r10b(ctx, rep)
     r10d(ctx, rep)
+    r10h(ctx, rep)
     from . import numeric
     numeric.r16e(ctx, rep, rule="R10f")
     from . import C18
